@@ -374,23 +374,45 @@ def run_retwidth(P, rep, rule='C07.RETWIDTH'):
     for f in kernels:
         if f.ret.replace(' ', '') not in ('uint64_t', 'int64_t'):
             continue
+        rd = None
         for ev in f.events(('ret',)):
-            e = ev.get('e')
-            x = e
-            casted = False
-            while x is not None and isinstance(x, list) and x and x[0] == 'k':
-                if 'uint32_t' in str(x[1]) or 'unsigned' in str(x[1]):
-                    casted = True
-                x = x[-1]
-            if x is None or x[0] != 'c':
-                continue
-            cn = callee_name(x) or ''
-            g = P.fn(cn, required=False)
-            rt = g.ret.replace(' ', '') if g is not None else None
-            n += 1
-            narrow = cn in W32 or rt in ('int32_t', 'int')
-            ok = not narrow or casted
-            rep.ob(rule, '%s/return:%s' % (f.name, cn), ok, f.loc(ev),
-                   ('%s returns the 64-bit value of %s' % (f.name, cn)) if ok else
-                   ('%s is declared to return %s but returns the signed 32-bit result of %s: a sum that reaches 2^31 comes back sign-extended, one above 2^32 wrapped, while the C reference returns the 64-bit sum' % (f.name, f.ret, cn)))
+            sources = []
+
+            def resolve(x, casted, depth=0):
+                """the calls whose value is returned: through casts and through locals with one kind of definition"""
+                nonlocal rd
+                while x is not None and isinstance(x, list) and x and x[0] == 'k':
+                    if 'uint32_t' in str(x[1]) or 'unsigned' in str(x[1]):
+                        casted = True
+                    x = x[-1]
+                if x is None or not isinstance(x, list) or not x:
+                    return
+                if x[0] == 'c':
+                    sources.append((x, casted))
+                elif x[0] == 'v' and x[2] == 'l' and depth < 3:
+                    if rd is None:
+                        from engine.reach import ReachingDefs
+                        rd = ReachingDefs(f)
+                    for dv in rd.at(ev, x[1]):
+                        if isinstance(dv, tuple):
+                            continue
+                        de = dv.get('e')
+                        if dv['k'] == 'decl' and de is not None:
+                            # a local of an unsigned 32-bit type zero-extends like the explicit cast does
+                            t = dv.get('t', '')
+                            resolve(de, casted or 'uint32_t' in t or 'unsigned' in t, depth + 1)
+                        elif dv['k'] == 'st' and de[0] == 'a' and de[1] == '=':
+                            t = next((d.get('t', '') for d in rd.byname.get(x[1], []) if d['k'] == 'decl'), '')
+                            resolve(de[3], casted or 'uint32_t' in t or 'unsigned' in t, depth + 1)
+            resolve(ev.get('e'), False)
+            for x, casted in sources:
+                cn = callee_name(x) or ''
+                g = P.fn(cn, required=False)
+                rt = g.ret.replace(' ', '') if g is not None else None
+                n += 1
+                narrow = cn in W32 or rt in ('int32_t', 'int')
+                ok = not narrow or casted
+                rep.ob(rule, '%s/return:%s' % (f.name, cn), ok, f.loc(ev),
+                       ('%s returns the 64-bit value of %s' % (f.name, cn)) if ok else
+                       ('%s is declared to return %s but returns the signed 32-bit result of %s: a sum that reaches 2^31 comes back sign-extended, one above 2^32 wrapped, while the C reference returns the 64-bit sum' % (f.name, f.ret, cn)))
     rep.floor(rule, 8)
